@@ -78,6 +78,11 @@ type Muxer struct {
 type segmentChannel struct {
 	mu sync.Mutex
 	ch chan *Segment
+	// closing is closed (once) when the protocol is being unregistered. The
+	// read loop holds mu while it is blocked sending into a full ch, so
+	// UnregisterProtocol signals here first to make it let go of mu
+	closing     chan struct{}
+	closingOnce sync.Once
 }
 
 type ConnectionClosedError struct {
@@ -198,7 +203,7 @@ func (m *Muxer) RegisterProtocol(
 	// Generate channels
 	senderChan := make(chan *Segment, 10)
 	receiver := make(chan *Segment, 10)
-	receiverChan := &segmentChannel{ch: receiver}
+	receiverChan := &segmentChannel{ch: receiver, closing: make(chan struct{})}
 	// Record channels in protocol sender/receiver maps
 	m.protocolReceiversMutex.Lock()
 	if _, ok := m.protocolSenders[protocolId]; !ok {
@@ -251,6 +256,9 @@ func (m *Muxer) UnregisterProtocol(
 	}
 	// Signal shutdown to protocol
 
+	// Release a read loop that is blocked sending to this receiver: nobody
+	// reads from it any more, and it holds recvChan.mu while it waits
+	recvChan.closingOnce.Do(func() { close(recvChan.closing) })
 	recvChan.mu.Lock()
 	defer recvChan.mu.Unlock()
 	if recvChan.ch != nil {
@@ -436,6 +444,9 @@ func (m *Muxer) readLoop() {
 		case <-m.doneChan:
 			recvChan.mu.Unlock()
 			return
+		case <-recvChan.closing:
+			// The protocol is being unregistered; drop the segment
+			recvChan.mu.Unlock()
 		case recvChan.ch <- msg:
 			recvChan.mu.Unlock()
 		}
